@@ -222,3 +222,142 @@ class RealNode:
 def frame(header, message):
     data = header.serialize() + message.serialize()
     return MAGIC + struct.pack(b">I", len(data)) + data
+
+
+# ---------------------------------------------------------------- the write path (what is queued must reach the wire)
+
+class ShortSock:
+    """a connected socket whose send() accepts at most `limit` bytes per call (a slow peer, a small or nearly full send
+    buffer): a legal behaviour of every non-blocking socket"""
+
+    def __init__(self, sock, limit):
+        self._s = sock
+        self.limit = limit
+
+    def fileno(self):
+        return self._s.fileno()
+
+    def send(self, data, *a):
+        return self._s.send(bytes(data)[:self.limit] if self.limit else data, *a)
+
+    def __getattr__(self, name):
+        return getattr(self._s, name)
+
+
+def write_path_probe(res, rng, messages, tag, limits=(97, 4096, 0)):
+    """`messages` (Message objects, some of them large) are queued for one greeted peer through the node's own
+    `send_message`, in bursts, while the event loop's write events run with the socket accepting only a few bytes per write.
+    Everything queued must reach the other end complete, once and in order — whatever the socket accepts per write and
+    whatever is still queued when the next message arrives — and the connection must not end up holding unsent bytes without
+    waiting for the socket to become writable (monitors only)"""
+    install_clock()
+    for limit in limits:
+        lp = LocalPeer(disk_interface=QuietDisk())
+        a, b = socket.socketpair()
+        a.setblocking(False)
+        b.setblocking(False)
+        ss = ShortSock(a, limit)
+        peer = ConnectedRemotePeer(lp, "10.9.9.9", 40009, INCOMING, None, ss, 0)
+        lp.selector.register(ss, selectors.EVENT_READ, data=peer)
+        lp.network_manager.handle_peer_connected(peer)
+        peer.hello_sent = peer.hello_received = True
+        got = bytearray()
+        errors = []
+
+        def pump(max_events):
+            for _ in range(max_events):
+                try:
+                    key = lp.selector.get_key(ss)
+                except (KeyError, ValueError):
+                    errors.append("the connection was dropped")
+                    return
+                if not (key.events & selectors.EVENT_WRITE):
+                    return
+                try:
+                    lp.handle_remote_peer_selector_event(key, selectors.EVENT_WRITE)
+                except BaseException as e:
+                    errors.append("write event raised %r" % e)
+                    return
+                while True:
+                    try:
+                        chunk = b.recv(1 << 16)
+                    except (BlockingIOError, OSError):
+                        break
+                    if not chunk:
+                        break
+                    got.extend(chunk)
+
+        todo = list(messages)
+        sent = []
+        step = 0
+        while todo:
+            burst = [todo.pop(0) for _ in range(min(len(todo), 1 + (step % 3)))]
+            for m in burst:
+                try:
+                    peer.send_message(m)
+                    sent.append(m.serialize())
+                except BaseException as e:
+                    errors.append("send_message raised %r" % e)
+            pump(1 if step % 2 == 0 else 3)            # the next burst arrives while part of this one is still unsent
+            step += 1
+        pump(200000)
+        frames, pos, raw = [], 0, bytes(got)
+        while len(raw) - pos >= 8 and raw[pos:pos + 4] == MAGIC:
+            (ln,) = struct.unpack(b">I", raw[pos + 4:pos + 8])
+            if len(raw) - pos - 8 < ln:
+                break
+            body = raw[pos + 8:pos + 8 + ln]
+            frames.append(body[53:])                   # (the 53-byte message header carries ids and the sender's clock)
+            pos += 8 + ln
+        res.case(("write-path", tag, limit, len(messages)), nontrivial=True)
+        res.count("write_path_probe:limit_%d" % limit)
+        unsent = len(peer.send_buffer) + sum(len(x) for x in peer.send_backlog)
+        try:
+            waiting = bool(lp.selector.get_key(ss).events & selectors.EVENT_WRITE)
+        except (KeyError, ValueError):
+            waiting = False
+        if errors or frames != sent or pos != len(raw) or unsent:
+            what = errors[0] if errors else (
+                "%d byte(s) are still queued and the node is %swaiting for the socket to become writable" % (
+                    unsent, "" if waiting else "NOT ") if unsent else
+                "the peer received %d complete message(s) (%d stray byte(s) behind them), %d were queued; first difference at message %d"
+                % (len(frames), len(raw) - pos, len(sent),
+                   next((i for i, (x, y) in enumerate(zip(frames, sent)) if x != y), min(len(frames), len(sent)))))
+            res.violations.append({"kind": "messages queued for a greeted peer (%s) do not reach it complete, once and in order when "
+                                           "its socket accepts at most %s bytes per write: %s"
+                                           % (tag, limit or "all", what),
+                                   "queued_sizes": [len(x) for x in sent]})
+        for s_ in (a, b):
+            try:
+                s_.close()
+            except Exception:
+                pass
+        try:
+            lp.selector.close()
+        except Exception:
+            pass
+
+
+def probe_messages(tree, keys, rng):
+    """what a node queues for a peer in ordinary operation: small replies and relays, and a block that carries a spend with
+    several hundred outputs (tens of kilobytes)"""
+    from skepticoin.networking.messages import InventoryItem
+    head = tree.cs.current_chain_hash
+    big = None
+    sp = [(r, o) for r, o in tree.spendable(head) if o.value > 1000]
+    if sp:
+        r, o = sp[0]
+        n_out = rng.randrange(250, 400)
+        tx = chain.make_tx(keys, tree.utxo(head), [r], [(1, k_ % len(keys.pks)) for k_ in range(n_out)] + [(o.value - n_out, 0)])
+        big = tree.extend(head, txs=[tx])
+    small = tree.blocks[-1] if big is None else tree.blocks[-2]
+    msgs = [GetPeersMessage(),
+            InventoryMessage([InventoryItem(DATA_BLOCK, b.hash()) for b in tree.blocks[:5]]),
+            DataMessage(DATA_BLOCK, big or small),
+            DataMessage(DATA_BLOCK, small),
+            GetPeersMessage(),
+            DataMessage(DATA_BLOCK, big or small),
+            InventoryMessage([])]
+    if big is not None:
+        msgs.append(DataMessage(DATA_TRANSACTION, big.transactions[1]))
+    return msgs
